@@ -44,6 +44,10 @@ func concreteScripts(rng *rand.Rand) map[string][]byte {
 		"p2pk":      pk,
 		"multisig":  ms,
 		"wit":       append([]byte{txscript.OP_0}, push(randBytes(rng, 20))...),
+		// unspendable, but not excluded by BIP158
+		"unparse":  append([]byte{txscript.OP_DATA_20}, randBytes(rng, 1+rng.Intn(10))...),
+		"unparse2": {txscript.OP_PUSHDATA1},
+		"oversize": append([]byte{txscript.OP_TRUE, byte(0x52 + rng.Intn(14))}, bytes.Repeat([]byte{txscript.OP_NOP}, 9999)...),
 	}
 }
 
